@@ -634,23 +634,6 @@ func (r *c29Run) doIter(via string, its []c29It, open func(it c29It) (dbm.Iterat
 			}, &aliased)
 		}
 		if err := r.check(func(w *c29World, wi int) error { return cmp(w, wi, rng(w, wi, it)) }); err != nil {
-			if pre := r.c.Prefix; via == "wrap" && r.c.Wrap == "prefix" && it.Rev && it.End == nil && pre[len(pre)-1] == 0xFF {
-				// PrefixDB.ReverseIterator bounds the parent range with the same-length increment of
-				// the prefix (00FF -> 0100) instead of the first key after the prefix range (01); a
-				// parent key in between is met first, lacks the prefix, and the iterator ends at once.
-				w := r.worlds[r.cur]
-				var alt []KV
-				for _, kv := range w.phys.Range(append(clone(pre), it.Start...), c29SameLenIncr(pre), true) {
-					if !bytes.HasPrefix(kv.K, pre) {
-						break
-					}
-					alt = append(alt, KV{kv.K[len(pre):], kv.V})
-				}
-				if cmp(w, r.cur, alt) == nil && r.ctx.Known("prefixdb-reverse-iterator-empty-when-prefix-ends-ff") {
-					r.ctx.Class("known:prefixdb-reverse-iterator-empty-when-prefix-ends-ff")
-					continue
-				}
-			}
 			return fmt.Errorf("%s: %v", what, err)
 		}
 	}
@@ -1057,21 +1040,6 @@ func (r *c29Run) cmpGet(w *c29World, via string, key, got []byte, gotNil bool, w
 		}
 	}
 	return fmt.Errorf("Get(%q) = %q (nil=%v), model: present=%v value=%q (Get returns nil iff the key does not exist)", key, got, gotNil, ok, want)
-}
-
-// c29SameLenIncr mirrors the big-endian same-length increment that PrefixDB
-// uses as the exclusive end of a prefix range (nil on overflow). Only used to
-// recognise the known PrefixDB reverse-iterator defect.
-func c29SameLenIncr(p []byte) []byte {
-	q := clone(p)
-	for i := len(q) - 1; i >= 0; i-- {
-		if q[i] < 0xFF {
-			q[i]++
-			return q
-		}
-		q[i] = 0
-	}
-	return nil
 }
 
 func nonNil(k []byte) []byte {
